@@ -295,7 +295,49 @@ def authorize(chk: Check, repo: Repo) -> None:
         chk.ob("authorize2-cell", fi.site(), got == want and all(r == best for r, _ in got), f"free level={free} client level={client}: {sorted(map(str, got))}; reference {sorted(map(str, want))} (better level {best})", key=f"auth|{free}|{client}" + ("" if got == want else f"|{sorted(map(str, got))}"))
 
 
+def teardown_contract(chk: Check, repo: Repo) -> None:
+    """nm_individual_address_check treats a connection the peer closed as "address occupied" through the exception the
+    teardown raises (`except ManagementConnectionRefused: return True` around the connection context).  That verdict
+    exists only if (1) P2PConnection.disconnect() on a connection the peer has closed raises ManagementConnectionRefused
+    (and sends nothing), (2) Management.disconnect lets it through, (3) the context manager tears down in `finally`."""
+    M_ = "xknx.management.management"
+    exc = ExcTable(repo)
+    f = repo.func(M_, "P2PConnection.disconnect")
+    chk.unit(f)
+    cfg = CFG(f.node)
+    for connected in (False, True):
+        def cm(c, env):
+            n = call_name(c)
+            if n == "self.disconnect_hook":
+                return [Outcome("HOOK", None)]
+            if n.endswith("cemi_handler.send_telegram"):
+                return [Outcome("SEND", None)]
+            if n.endswith(".cancel") or n == "Telegram" or n == "TDisconnect" or n.startswith("logger."):
+                return [Outcome(None, Obj("x", n))]
+            return None
+        am = AbsMachine(cfg, exc, cm)
+        paths = Explorer(cfg, repo, am.step).run(cfg.entry, [], {"self._connected": connected, "self._ack_waiter": None})
+        got = {(tuple(t for t in p.env.get("trace", ()) if not t.startswith("raise:")), "exit" if p.end_kind == "exit" else f"raise {p.env.get('#raised')}") for p in paths}
+        want = {(("SEND", "HOOK"), "exit")} if connected else {(("HOOK",), "raise ManagementConnectionRefused")}
+        chk.ob("teardown-reports-a-connection-the-peer-closed", f.site(), got == want, f"P2PConnection.disconnect with _connected={connected}: {sorted(map(str, got))}; reference {sorted(map(str, want))}", key=f"teardown|p2p|{connected}")
+    md = repo.func(M_, "Management.disconnect")
+    chk.unit(md)
+    swallowed = []
+    for t in walk_local(md.node):
+        if isinstance(t, ast.Try) and any(isinstance(x, ast.Call) and call_name(x).endswith(".disconnect") for b in t.body for x in ast.walk(b)):
+            for h in t.handlers:
+                names = [ast.unparse(x) for x in (h.type.elts if isinstance(h.type, ast.Tuple) else [h.type])] if h.type is not None else ["BaseException"]
+                if any(exc.is_subclass("ManagementConnectionRefused", n_) for n_ in names) and not isinstance(h.body[-1], ast.Raise):
+                    swallowed.append(", ".join(names))
+    chk.ob("teardown-reports-a-connection-the-peer-closed", md.site(), not swallowed, "Management.disconnect re-raises what the connection's teardown raises" if not swallowed else f"Management.disconnect swallows the teardown error in `except {swallowed[0]}`", key="teardown|management")
+    cx = repo.func(M_, "Management.connection")
+    chk.unit(cx)
+    fin = [t for t in walk_local(cx.node) if isinstance(t, ast.Try) and any(isinstance(x, ast.Yield) for b in t.body for x in ast.walk(b)) and any(isinstance(x, ast.Call) and call_name(x) == "self.disconnect" for b in t.finalbody for x in ast.walk(b))]
+    chk.ob("teardown-reports-a-connection-the-peer-closed", cx.site(), len(fin) == 1, "Management.connection closes the connection in `finally` (also when the body failed), so the teardown error replaces a timeout of the probe", key="teardown|context")
+
+
 def run(chk: Check, repo: Repo) -> None:
+    teardown_contract(chk, repo)
     address_write(chk, repo)
     address_check(chk, repo)
     address_read(chk, repo)
